@@ -1,0 +1,25 @@
+"""Verification fault points.
+
+`fault_point(name, **ctx)` is a no-op unless the environment variable
+``MAGPYLIB_VERIF=1`` is set at import time *and* a handler has been installed
+with `set_handler`. It marks places where an exception (allocation failure,
+interrupt) can leave a multi-step operation part-way, so that a simulator can
+raise there deterministically.
+"""
+
+import os
+
+ENABLED = os.environ.get("MAGPYLIB_VERIF") == "1"
+_handler = None
+
+
+def set_handler(handler):
+    """Install (or remove with None) the fault-point handler. Ignored when disabled."""
+    global _handler  # pylint: disable=global-statement
+    _handler = handler if ENABLED else None
+
+
+def fault_point(name, **ctx):
+    """Cooperative fault point; does nothing in normal operation."""
+    if _handler is not None:
+        _handler(name, ctx)
